@@ -154,11 +154,13 @@ func evalStmtBlock(vm *r.VM, stmtBlock *syntax.StmtBlock) (r.Element, error) {
 	for _, stmtX := range stmtBlock.Children {
 		switch v := stmtX.(type) {
 		case *syntax.ClassDeclareStmt:
-			// declare class
+			// declare class (an error in it is reported at the declaration's line)
+			vm.SetCurrentLine(v.GetCurrentLine())
 			if err := evalClassDeclareStmt(vm, v); err != nil {
 				return nil, err
 			}
 		case *syntax.FunctionDeclareStmt:
+			vm.SetCurrentLine(v.GetCurrentLine())
 			if v.DeclareType == syntax.DeclareTypeConstructor {
 				if err := evalConstructorDeclareStmt(vm, v); err != nil {
 					return nil, err
